@@ -6,6 +6,7 @@ package c09
 import (
 	"bytes"
 	"context"
+	"errors"
 	"fmt"
 	"runtime/debug"
 	"sort"
@@ -808,13 +809,29 @@ func TestRegionCache(t *testing.T) {
 					w.ops = append(w.ops, fmt.Sprintf("invalidate(%s)", locStr(l)))
 				}
 			},
+			// what a sender does after it failed to reach every known peer of a region: the cached region is kept but
+			// flagged "reload on next access" (RegionCache.OnSendFail with scheduleReload)
+			"sendFailed": func(t *rapid.T) {
+				k := w.drawKey("key")
+				l := w.cache.TryLocateKey([]byte(k))
+				if l == nil {
+					return
+				}
+				bo := w.bo()
+				ctx, err := w.cache.GetTiKVRPCContext(bo, l.Region, kv.ReplicaReadLeader, 0)
+				if err != nil || ctx == nil {
+					return
+				}
+				w.cache.OnSendFail(bo, ctx, true, errors.New("injected send failure"))
+				w.ops = append(w.ops, fmt.Sprintf("sendFailed(%s)", locStr(l)))
+			},
 			"send": func(t *rapid.T) {
 				k := w.drawKey("key")
 				lookup(fmt.Sprintf("send(Get %q)", k), func() { w.sendGet(k, 3, false) })
 			},
 		}
 		// weights: rapid picks actions uniformly, so the ones that make a case non-trivial are entered several times
-		for _, n := range []string{"split", "split", "merge", "batchLocate", "batchLocate", "locateKeyRange", "locateKeyRange", "locateKey"} {
+		for _, n := range []string{"split", "split", "merge", "batchLocate", "batchLocate", "locateKeyRange", "locateKeyRange", "locateKey", "sendFailed"} {
 			for i := 2; ; i++ {
 				if _, ok := actions[fmt.Sprintf("%s#%d", n, i)]; !ok {
 					actions[fmt.Sprintf("%s#%d", n, i)] = actions[n]
